@@ -289,6 +289,10 @@ func runC04(p *Program, r *Result) {
 		r.Check(okAbort, sub, "return:fatal", "", "other Unwrap errors are returned as they are, with no reader", "no return forwards a fatal Unwrap error")
 	}
 
+	r.Rule("R04.5", "a stanza of another type yields the sentinel, so every non-matching identity is counted instead of aborting Decrypt (= R01.4)", 4)
+	checkTypeGate(p, r)
+	r.Rule("R04.6", "keys are stored and used verbatim: constructor and wrap/unwrap recipes equal the specification table", 10)
+	checkSites(p, r, recipeSites, "C04")
 	r.Rule("R03.6", "every error return carries a nil reader", 8)
 	checkNothingOnError(p, r, dec, map[string]bool{newReader.String(): true})
 	checkNothingOnError(p, r, newReader, nil)
